@@ -262,7 +262,7 @@ func TestVerifC18(t *testing.T) {
 	// ---- 2. random sequences incl. boundary sizes, random chunkings ----------------
 	rng = verifkit.Rand("c18-large")
 	bodySizes := []int{0, 1, 2, 127, 128, 129, 16383, 16384, 16385, limit - 1, limit}
-	nseq := verifkit.Pick(150, 2500)
+	nseq := verifkit.Pick(150, 8000)
 	for it := 0; it < nseq; it++ {
 		k := kinds[rng.Intn(len(kinds))]
 		fast := rng.Intn(2) == 0
@@ -462,7 +462,7 @@ func TestVerifC18(t *testing.T) {
 
 	// ---- 6. random byte strings ----------------------------------------------------
 	rng = verifkit.Rand("c18-random")
-	nrand := verifkit.Pick(10000, 200000)
+	nrand := verifkit.Pick(10000, 1000000)
 	const smallLimit = 256
 	for it := 0; it < nrand; it++ {
 		k := kinds[rng.Intn(len(kinds))]
